@@ -404,6 +404,9 @@ example : (waitCode .inProcess).localResultBounded = true ∧ (wrun (waitCode .i
     (wsettle (waitCode .inProcess) (wrun (waitCode .inProcess) winit [.rDone]) 7).wpc = .returned ∧
     (wsettle (waitCode .inProcess) (wrun (waitCode .inProcess) winit [.rDone]) 7).procGone = false ∧
     (wsettle (waitCode .osProcess) (wrun (waitCode .osProcess) winit [.rDone]) 7).wpc = .returned := by decide
+/-- `wait_steps_terminate` on a concrete step: the 3 s timer lowers the measure from 6 to 5 -/
+example : WEv.t3s.internal = true ∧ wmu (wrun (waitCode .inProcess) winit [.rDone, .passDone]) = 6 ∧
+    (wstep (waitCode .inProcess) (wrun (waitCode .inProcess) winit [.rDone, .passDone]) .t3s).map wmu = some 5 := by decide
 /-- a client that ends by itself: no timer is needed -/
 example : (wrun (waitCode .inProcess) winit [.pGone, .rDone, .passDone, .deliver, .gotResult]).wpc = .returned ∧
     (wrun (waitCode .inProcess) winit [.pGone, .rDone, .passDone, .deliver, .gotResult]).aborted = false := by decide
